@@ -130,6 +130,13 @@ def injectors():
         if n is not None:
             add("unknown-part-type", "part", {"type": n})
             add("unknown-part-type", "parts", ["a", {"type": n, "key.equal_to": "b"}])
+    # the same part errors inside a data path given as a condition argument (the key is a valid path key,
+    # so this is a path spec with a malformed part, not a literal mapping)
+    for bad_part in ({"type": "set_value"}, {"type": "map_value", "keys": 1}, {"type": "list_value", "key.equal_to": "a"},
+                     {"type": "map_value", "value": {"key.equal_to": "a"}}, {"foo": 1}, {"type": 3}):
+        add("malformed-part-in-path-argument", "cond", {"value.equal_to": {"path": ["a", bad_part]}})
+        add("malformed-part-in-path-argument", "cond", {"value.in": [{"path.first": [bad_part]}, 1]})
+        add("malformed-part-in-path-argument", "rule", dict({"path": ["a"], "condition": {"value.less_than": {"path": [bad_part, "b"]}}}))
     for k in ("keys", "foo", "values", "idx", "Key", "map_conditions", "labels", "value_", "key.", "cond"):
         add("unknown-part-argument", "part", {"type": "map_value", k: {"value.equal_to": 1}})
         add("unknown-part-argument", "part", {k: 1})
